@@ -20,8 +20,8 @@ from .types import B, I, R, V, atom_name, is_ref, parse_type, rec_fields, sort_o
 VERIF = os.path.dirname(os.path.dirname(os.path.abspath(__file__)))
 
 TIERS = {
-    "quick": dict(rlimit=40_000_000, timeout_ms=60_000, cvc5=True),
-    "thorough": dict(rlimit=400_000_000, timeout_ms=300_000, cvc5=True),
+    "quick": dict(rlimit=40_000_000, timeout_ms=40_000, cvc5=True, ob_s=90),
+    "thorough": dict(rlimit=400_000_000, timeout_ms=240_000, cvc5=True, ob_s=600),
 }
 
 
@@ -162,6 +162,7 @@ class Runner:
         self.functions = []
         self.problems = []  # undecided / checker errors
         self.violations = []
+        self.trivial = []
 
     def hints_for(self, E, ob):
         """lemma instances requested by the contract's `use` entries whose scope matches the obligation"""
@@ -286,6 +287,8 @@ class Runner:
                     self.problems.append({"function": c.qual, "kind": "vacuity", "detail": f"outcome {want} not reachable"})
             for ob in obs:
                 WORK.append(("ob", self, E, ob))
+            for oid, where in getattr(E, "trivial_ids", []):
+                self.trivial.append({"id": oid, "where": where, "status": "discharged", "subgoals": 1, "backends": ["z3/simplifier"], "solver_s": 0.0})
             ens = [ob for ob in obs if ob.kind in ("ensures", "raises-when", "raises-ensures", "no-raise", "inv-preserved")]
             if ens:
                 WORK.append(("canary", self, E, ens[0]))
@@ -336,7 +339,7 @@ class Runner:
                 for sr in subs:
                     if sr["secs"] > 3:
                         print("SLOW", ob.id, ob.where, sr["secs"], sr["detail"])
-        self.obligations = obligations
+        self.obligations = obligations + self.trivial
         self.cm = cm
         self.have_facts = have_facts
         return self.report()
@@ -433,12 +436,15 @@ def work_item(i):
         hint_fn = runner.hints_for(E, ob)
         subs = smt.split_goal(smt.flatten_hyps(ob.pc), ob.goal, [])
         out = []
+        deadline = time.time() + runner.budget["ob_s"]
         for pc2, g, sk in subs:
             hints = hint_fn(sk)
             stages = smt.build_stages(pc2, g, sk, ob.idx, hints, E.c.float)
-            r = smt.solve_stages(stages, runner.budget["rlimit"], runner.budget["timeout_ms"], runner.budget["cvc5"], terms)
+            r = smt.solve_stages(stages, runner.budget["rlimit"], runner.budget["timeout_ms"], runner.budget["cvc5"], terms, deadline)
             r["goal"] = str(g)[:400].replace("\n", " ")
             out.append(r)
+            if r["verdict"] in ("sat", "sat-qf"):
+                break  # one refuted sub-goal refutes the obligation
         return {"subs": out, "template": tmpl}
     except Exception:  # noqa
         return {"error": traceback.format_exc()}
